@@ -131,11 +131,11 @@ cgscon(char *norm, SuperMatrix *L, SuperMatrix *U,
 	    
 	} else {
 
-	    /* Multiply by inv(U'). */
-	    sp_ctrsv("Upper", "Transpose", "Non-unit", L, U, &work[0], info);
+	    /* Multiply by inv(U**H); ?LACON needs the conjugate transpose. */
+	    sp_ctrsv("Upper", "Conjugate transpose", "Non-unit", L, U, &work[0], info);
 
-	    /* Multiply by inv(L'). */
-	    sp_ctrsv("Lower", "Transpose", "Unit", L, U, &work[0], info);
+	    /* Multiply by inv(L**H). */
+	    sp_ctrsv("Lower", "Conjugate transpose", "Unit", L, U, &work[0], info);
 	    
 	}
 
